@@ -51,7 +51,7 @@ def attributes(src: str, name: str=None):
         if attribute_name(scanner):
             token = AttributeToken(scanner.current(), scanner.start, scanner.pos)
 
-            if scanner.eat(Chars.Equals) and attribute_value(scanner):
+            if eat_equals(scanner) and attribute_value(scanner):
                 token.value = scanner.current()
                 token.value_start = scanner.start
                 token.value_end = scanner.pos
@@ -65,6 +65,20 @@ def attributes(src: str, name: str=None):
 
 
 quoted_opt = dict(scan_opt, escape=None)
+
+def eat_equals(scanner: Scanner):
+    """
+    Consumes `=` between attribute name and its value. HTML allows white space
+    around it: `<a href = "...">`
+    """
+    start = scanner.pos
+    scanner.eat_while(is_space)
+    if scanner.eat(Chars.Equals):
+        scanner.eat_while(is_space)
+        return True
+
+    scanner.pos = start
+    return False
 
 def attribute_name(scanner: Scanner):
     "Consumes attribute name from given scanner context"
